@@ -28,6 +28,13 @@ TEMPLATES = [
     "import abc as a\ntype Shape\n    def area(fin self) -> Int\nclass Sq(def s: Int): Shape\n    def area(fin self) -> Int => self.s\nprint(Sq(3).area())\n",
     "from abc import ABC as Base\ntype Shape\n    def area(fin self) -> Int\nclass Sq(def s: Int): Shape\n    def area(fin self) -> Int => self.s\nprint(Sq(3).area())\n",
     "import typing\ntype Small: Int when self < 10\ndef z: Int := 3\nprint(z)\n",
+    # modules that need 2, 3, 4, 5 and 6 names of ONE module at once (every name is used, so every one must be imported)
+    "def f(a: Int?, b: {Int, Str}) -> Int => 1\nprint(f(None, 1))\n",
+    "def f(a: Int?, b: {Int, Str}, c: (Int, Str)) -> Int => 1\nprint(f(None, 1, (1, \"a\")))\n",
+    "def f(a: Int?, b: {Int, Str}, c: (Int, Str), d: Int -> Int) -> Int => 1\nprint(f(None, 1, (1, \"a\"), \\q: Int => q))\n",
+    "def f(a: Int?, b: {Int, Str}, c: (Int, Str), d: Int -> Int, e: Any) -> Int => 1\nprint(f(None, 1, (1, \"a\"), \\q: Int => q, 2))\n",
+    "type Small: Int when self < 10\ndef f(a: Int?, b: {Int, Str}, c: (Int, Str), d: Int -> Int, e: Any) -> Int => 1\nprint(f(None, 1, (1, \"a\"), \\q: Int => q, 2))\n",
+    "type Sh\n    def area(fin self) -> Int\nclass Sq(def s: Int): Sh\n    def area(fin self) -> Int => self.s\ndef f(a: Int?, b: {Int, Str}, c: (Int, Str), d: Int -> Int) -> Float => sqrt 4.0\nprint(Sq(2).area())\n",
 ]
 
 
